@@ -23,7 +23,8 @@ func c05build(ops []*Sx) (*flamego.Flame, bool) {
 	f.Use(func(c flamego.Context) { c.Map(c05tok(c.Request().Header.Get("X-Tok"))) })
 	f.Use(func(c flamego.Context) { c.Next() })
 	f.Use(func(c flamego.Context) {})
-	f.Map(&svcA{id: 77}) // resolved by handlers through the interface i1
+	f.Use(flamego.Renderer()) // every other route answers through the request's Render
+	f.Map(&svcA{id: 77})      // resolved by handlers through the interface i1
 	f.NotFound(func(c flamego.Context, t c05tok) string { return "(notfound) tok=" + string(t) })
 	var routes []*flamego.Route
 	ok := true
@@ -34,7 +35,7 @@ func c05build(ops []*Sx) (*flamego.Flame, bool) {
 		case "reg":
 			i := idx
 			idx++
-			h := func(c flamego.Context, t c05tok, s i1) string {
+			h := func(c flamego.Context, t c05tok, s i1, rd flamego.Render) string {
 				params := c.Params()
 				keys := make([]string, 0, len(params))
 				for k := range params {
@@ -53,7 +54,12 @@ func c05build(ops []*Sx) (*flamego.Flame, bool) {
 					defer func() { _ = recover() }()
 					url = c.URLPath("n0", "x", "1")
 				}()
-				return fmt.Sprintf("%s tok=%s svc=%d url=%s", sb.String(), t, s.M1(), url)
+				body := fmt.Sprintf("%s tok=%s svc=%d url=%s", sb.String(), t, s.M1(), url)
+				if i%2 == 1 {
+					rd.PlainText(http.StatusOK, body)
+					return ""
+				}
+				return body
 			}
 			var rt *flamego.Route
 			func() {
